@@ -42,6 +42,9 @@ func main() {
 	verbose := flag.Bool("v", false, "verbose")
 	dump := flag.String("dump", "", "dump queries of obligations whose name contains this string")
 	noEvidence := flag.Bool("no-evidence", false, "do not write evidence")
+	extra := flag.String("extra", "", "JSON file with the result of a bounded / computed leg to merge into the evidence")
+	level := flag.String("level", "proof", "evidence level (proof | other)")
+	explanation := flag.String("explanation", "", "coverage.explanation for level other")
 	flag.Parse()
 	t0 := time.Now()
 	if *timeout == 0 {
@@ -212,7 +215,7 @@ func main() {
 	res.Timing = map[string]float64{"load_s": round2(tLoad), "vcgen_s": round2(tGen), "solve_s": round2(tSolve)}
 	res.WallS = round2(time.Since(t0).Seconds())
 	if !*noEvidence && *prop != "" && *only == "" {
-		writeEvidence(res, filepath.Join(*verifDir, "evidence", *prop+".json"))
+		writeEvidence(res, filepath.Join(*verifDir, "evidence", *prop+".json"), *level, *explanation, *extra)
 	}
 	fmt.Printf("govc: property=%s functions=%d obligations=%d discharged=%d trivial=%d failed=%d known=%d  (load %.1fs, vcgen %.1fs, solve %.1fs)\n",
 		*prop, len(keys), res.Obligations, res.Discharged, res.Trivial, len(res.Failed), res.KnownHits, tLoad, tGen, tSolve)
